@@ -1,8 +1,10 @@
 """C18 — sorting and container libraries conform to their abstract data types.
    (T) coq/Properties_C18.v
-   (G) gen/c18_iset.py (iset merge guards), gen/c18_ralist.py (largest-skew-binary of SRFI 101, check of SRFI 134)
-   (K-inner) families isett / deque / ra: the real representation (iset tree, ideque record, ra-list tree sizes) against the
-       model's (coq/C18/ISet.v, Deque.v, RaList.v) after every operation
+   (G) gen/c18_iset.py (iset merge guards), gen/c18_ralist.py (largest-skew-binary of SRFI 101, check of SRFI 134),
+       gen/c18_rbtree.py (the tree-match clause tables of the SRFI 146 red-black tree)
+   (K-inner) families isett / deque / ra / map / lq: the real representation (iset tree, ideque record, ra-list tree sizes, red-black
+       tree of a mapping, first/last pointers of a list queue) against the model's (coq/C18/ISet.v + ISetInter.v, Deque.v, RaList.v,
+       RBTree.v, LQueue.v) after every operation
    (K-outer, sorts) SRFI 95 / SRFI 132 procedures vs the extracted reference stable sort / merge (coq/C18/Spec.v,
        Oracle.v); elements carry their original position so stability is observable.
    (K-outer, containers) operation histories on SRFI 113/146/101/117/134/(chibi iset)/1/133 vs the extracted
@@ -1305,9 +1307,18 @@ def run(ctx):
     check_histories(ctx, d, exe, corpus_hist)
     ctx.assume("less/key procedures that raise, capture continuations or mutate the sequence are outside the model")
     ctx.assume("inconsistent orderings (NaN, non-transitive less) are outside the property's premise and are not generated")
-    ctx.assume("of the container implementations, (chibi iset) adjoin/delete/union (coq/C18/ISet.v), SRFI 134 (coq/C18/Deque.v) and SRFI 101 (coq/C18/RaList.v) are "
-               "modelled and tied operation by operation (real representation vs the model's); SRFI 113, 146 (red-black tree, HAMT), 117, iset intersection/"
-               "difference and the SRFI 1/133 subset are NOT modelled: for them the Coq artefact is an abstract model with proved laws, compared differentially; "
-               "operations that 'are an error' per the SRFI (empty deque front, index out of range, n-ary map over lists of different lengths) are not generated")
+    ctx.assume("of the container implementations, (chibi iset) adjoin/delete/union/intersection/difference (coq/C18/ISet.v, ISetInter.v), SRFI 134 "
+               "(coq/C18/Deque.v), SRFI 101 (coq/C18/RaList.v), the SRFI 146 red-black tree with the mapping procedures on top (coq/C18/RBTree.v) and SRFI 117 "
+               "list queues (coq/C18/LQueue.v, store-passing over a heap of pairs) are modelled and tied operation by operation (real representation / "
+               "representation invariant vs the model's); STILL OUTSIDE the Coq model, compared differentially with an abstract oracle whose laws are "
+               "proved: SRFI 146 hashmaps (the HAMT, lib/srfi/146/hamt*.scm), SRFI 113 sets/bags (over SRFI 69/125 hash tables: C15 covers the tables), "
+               "the SRFI 1/133 subset, mapping-range*/split/catenate (tree-split / tree-catenate: known finding F-C18-14, stated as theorem "
+               "rbtree_catenate_keeps_invariant_refuted), iset cursors / rank / select / optimize; operations that 'are an error' per the SRFI (empty "
+               "deque front, index out of range, n-ary map over lists of different lengths, mutating queues that share pairs) are not generated")
+    ctx.note("container implementations that remain OUTSIDE the Coq model (black boxes with differential ties only): SRFI 146 hashmaps = the HAMT "
+             "(lib/srfi/146/hamt.scm, hamt-map.scm, hamt-misc.scm, vector-edit.scm; measured clause coverage in coverage.clause_coverage), SRFI 113 "
+             "sets and bags (lib/srfi/113/*.scm over hash tables), the SRFI 1 / SRFI 133 subset, and tree-split / tree-catenate of the red-black tree "
+             "(known finding F-C18-14).  Inside the model since round 4: SRFI 146 red-black tree + mapping procedures, SRFI 117 list queues, (chibi iset) "
+             "intersection / difference")
     ctx.assume("sexp_object_compare (the built-in ordering) is exercised on numbers, depth-limited vectors and lists of integers but not modelled")
     ctx.trust("harness/c18_hist.scm and the history interpreter in ocaml/C18_driver.ml (one spec call per operation, same index guards on both sides)")
